@@ -246,14 +246,18 @@ def parseBlankLine (mt : RxMatch) (st : BlockState) : PMRes :=
 def parseThematicBreak (mt : RxMatch) (st : BlockState) : PMRes :=
   .ok (some (mt.stop + 1), st.appendToken (tok "thematic_break" []))
 
+/-- the text computation of `parse_indent_code`: `expand_leading_tab(code)`, `_INDENT_CODE_TRIM.sub("", code)`,
+`code.strip("\n")` -/
+def indentBody (cfg : MdCfg) (code : Str) : Str :=
+  let code := expandLeadingTab cfg code 4
+  let code := Py.reSub (cfg.rx "mistune.block_parser._INDENT_CODE_TRIM") (fun _ _ => []) code
+  Py.stripC ['\n'] code
+
 /-- `BlockParser.parse_indent_code` -/
 def parseIndentCode (cfg : MdCfg) (mt : RxMatch) (st : BlockState) : PMRes := do
   let (endPos, st) ← st.appendParagraph cfg
   if truthyPos endPos then return (endPos, st)
-  let code := grp0 st mt
-  let code := expandLeadingTab cfg code 4
-  let code := Py.reSub (cfg.rx "mistune.block_parser._INDENT_CODE_TRIM") (fun _ _ => []) code
-  let code := Py.stripC ['\n'] code
+  let code := indentBody cfg (grp0 st mt)
   return (some mt.stop, st.appendToken (tok "block_code" [("raw", .str code), ("style", Json.s "indent")]))
 
 /-- the `(code, end_pos)` computation of `parse_fenced_code`: search the closing fence from `cursorStart`
